@@ -9,7 +9,7 @@ WT=${SEED_ROOT:-/tmp/seed}/$PROP   # the demos pin this path
 OUT=/verif/seeded/$PROP/$NAME
 mkdir -p "$OUT"
 if [ ! -d "$WT" ]; then git -C /repo worktree add -q "$WT" HEAD || exit 2; fi
-(cd "$WT" && git checkout -q -- src tests 2>/dev/null)
+(cd "$WT" && git checkout -q -- src tests 2>/dev/null; git checkout -q --detach $(git -C /repo rev-parse HEAD) 2>/dev/null)
 cp "$SRC/patch.diff" "$OUT/patch.diff"; cp "$SRC/demo.py" "$OUT/demo.py"; [ -f "$SRC/notes.md" ] && cp "$SRC/notes.md" "$OUT/notes.md"
 cd "$WT"
 PYTHONPATH=$WT/src /venv/bin/python -W ignore "$OUT/demo.py" >/tmp/sv_demo0_$$.txt 2>&1; D0=$?
